@@ -2,6 +2,8 @@ CONSTANTS
   Keys = {"k1", "k2", "k3", "k4", "k5"}
   Vals = {1, 2, 3}
   MaxWrites = 1000
+  MinWin = 1
+  MaxWin = 0
   SimLen = 40
 INIT GInit
 NEXT GNext
